@@ -22,7 +22,7 @@ import time
 VERIF = os.path.dirname(os.path.dirname(os.path.abspath(__file__)))
 
 
-def sh(cmd, cwd=None, env=None, timeout=3600):
+def sh(cmd, cwd=None, env=None, timeout=900):
     p = subprocess.run(cmd, cwd=cwd, env=env, stdout=subprocess.PIPE, stderr=subprocess.STDOUT, text=True, timeout=timeout)
     return p.returncode, p.stdout
 
@@ -48,6 +48,12 @@ def main():
             sh(["git", "clean", "-fdq"], cwd=wt)
             env = dict(os.environ, PYTHONPATH=wt, PYTHONDONTWRITEBYTECODE="1")
             ran = []
+            # some demos name the author's worktree literally (to assert where mingus is imported from)
+            demo_text = open(demo).read()
+            demo_local = os.path.join(wt, "_seed_demo.py")
+            with open(demo_local, "w") as f:
+                f.write(demo_text.replace(os.path.realpath(src), wt).replace(src.rstrip("/"), wt))
+            demo_orig, demo = demo, demo_local
             rc0, out0 = sh(["/venv/bin/python", demo], cwd=wt, env=env, timeout=600)
             ran.append("demo on clean tree -> exit %d" % rc0)
             rca, outa = sh(["git", "apply", pf], cwd=wt)
@@ -76,7 +82,8 @@ def main():
             dst = os.path.join(VERIF, "seeded", name)
             os.makedirs(dst, exist_ok=True)
             shutil.copy(pf, os.path.join(dst, "patch.diff"))
-            shutil.copy(demo, os.path.join(dst, "demo.py"))
+            with open(os.path.join(dst, "demo.py"), "w") as f:
+                f.write(demo_text.replace(os.path.realpath(src), "/repo").replace(src.rstrip("/"), "/repo"))
             notes = ""
             if os.path.exists(os.path.join(d, "notes.md")):
                 shutil.copy(os.path.join(d, "notes.md"), os.path.join(dst, "notes.md"))
